@@ -376,6 +376,57 @@ def run(chk):
                     if rx == L and res == "len":
                         chk.violation("decode-refuses-right-length", "%s refused a payload of the declared length" % name,
                                       dict(kind=kind, size=L, rx=rx, payload=d.hex()), "decoded", res)
+
+    # ---------- part 4b: the length rule through the python-can entry point ----------
+    # decode_pycan has no opt-in either; the message object is a stand-in carrying every can.Message attribute
+    # (python-can is not installed), classic and CAN FD, with payload lengths including the CAN FD DLC steps.
+    class _Msg(object):
+        def __init__(self, arb, ext, data, fd):
+            self.arbitration_id, self.is_extended_id, self.data, self.dlc = arb, ext, data, len(data)
+            self.is_fd, self.bitrate_switch, self.error_state_indicator = fd, fd, False
+            self.is_remote_frame = self.is_error_frame = False
+            self.is_rx, self.channel, self.timestamp = True, None, 0.0
+
+        def __len__(self):
+            return len(self.data)
+
+    fd_steps = [0, 1, 2, 3, 4, 5, 6, 7, 8, 12, 16, 20, 24, 32, 48, 64]
+    for L in ([1, 2, 3, 8, 9, 10, 12, 13, 17, 21, 25, 33, 49, 63, 64] if not thorough else list(range(1, 65))):
+        for kind, fr in make_frames(L):
+            db = C.CanMatrix()
+            db.add_frame(fr)
+            rxs = sorted(set(fd_steps + [L - 1, L, L + 1, 2 * L] + [rng.randrange(0, 2 * L + 1) for _ in range(4)]))
+            for rx in rxs:
+                if rx < 0:
+                    continue
+                d = bytes(rng.randrange(256) for _ in range(rx))
+                if kind == "container" and rx >= 7:
+                    d = bytes([1, 2, 0x11, 0x22, 2, 1, 0x33]) + d[7:]
+                for fd in (False, True):
+                    for payload in (d, bytearray(d)):
+                        m = _Msg(fr.arbitration_id.id, fr.arbitration_id.extended, payload, fd)
+                        try:
+                            r = db.decode_pycan(m)
+                            res = "ok"
+                        except C.DecodingFrameLength:
+                            res = "len"
+                        except Exception as e:
+                            res = "other:" + type(e).__name__
+                        chk.case(("pycan", L, kind, rx, fd, d), rx != L)
+                        chk.count("decode_pycan-fd" if fd else "decode_pycan-classic")
+                        if rx != L and res != "len":
+                            chk.violation("decode-silent-length", "CanMatrix.decode_pycan decoded a payload of wrong length",
+                                          dict(kind=kind, size=L, rx=rx, is_fd=fd, payload=d.hex()), "DecodingFrameLength", res)
+                        if rx == L:
+                            try:
+                                r0 = canon(db.decode(fr.arbitration_id, d))
+                                res0 = "ok"
+                            except Exception as e:
+                                r0, res0 = None, "other:" + type(e).__name__
+                            if res == "len" or res != res0 or (res == "ok" and canon(r) != r0):
+                                chk.violation("decode-pycan-value", "CanMatrix.decode_pycan reads a payload of the declared length differently "
+                                              "from CanMatrix.decode", dict(kind=kind, size=L, is_fd=fd, payload=d.hex()), r0 if res0 == "ok" else res0,
+                                              canon(r) if res == "ok" else res)
     chk.sample(dict(kind="plain", size=3, rx=2, allow_truncated=True, allow_exceeded=False, read_as="payload + ff"))
 
     if not ok:
